@@ -20,10 +20,12 @@ from mc.explore import words
 PROPERTY = "C17"
 LEVEL = "exploration"
 TECHNIQUE = "bounded exhaustive enumeration of gate words per compilation pass vs. independent dense-unitary reference"
-LEVEL_TEXT = ("For each of the covered passes every gate word up to length 3 (quick) / 4 (thorough; some sub-alphabets to 5-6) over a "
-              "per-pass alphabet of 8-28 letters on 3 wires, times every option combination, is pushed through the real pass and the "
-              "result is compared with a plain-numpy unitary of the input word up to global phase (tolerance 1e-9, 1e-6 for the "
-              "documented numerically unstable Rot fusion).")
+LEVEL_TEXT = ("For each of 20 passes (cancel_inverses, merge_rotations, commute_controlled, single_qubit_fusion, undo_swaps, "
+              "combine_global_phases, remove_barrier, unitary_to_rot, merge_amplitude_embedding, compile, match_controlled_iX_gate, "
+              "match_relative_phase_toffoli, pattern_matching_optimization, rowcol, rz_phase_gradient, 4 ZX passes) every gate word up to "
+              "length 2-3 (quick) / 3-6 (thorough) over a per-pass alphabet of 6-34 letters on 2-4 wires, times every option combination, "
+              "is pushed through the real pass and compared with a plain-numpy unitary of the input word up to global phase (tolerance "
+              "1e-9; 1e-6 for the documented numerically unstable Rot fusion and two-qubit synthesis).")
 LEVEL_NOTE = ("Trusted base: mc.refgates closed-form matrices, numpy. Output operators outside the refgates table fall back to qp.matrix "
               "(declared). Not decided: angles outside the alphabets, words longer than the bound, differentiable/abstract parameters, "
               "the qjit/capture variants of the passes; passes not listed in coverage.passes_covered.")
